@@ -4,7 +4,7 @@ import random
 
 from engine import loader
 from engine.runner import Acc
-from engine.util import call, chunks, other_bits
+from engine.util import call, chunks, other_bits, vary_case
 from spec import frames as F
 
 LEVEL = "exploration"
@@ -81,6 +81,7 @@ def w_strings(arg):
         for v in range(nvar):
             for kind, msg, extra in frames_for(codes, idx + v * 5):
                 acc.n += 1
+                msg = vary_case(msg, idx + v)
                 s = judge(kind, codes, msg, extra)
                 if s:
                     acc.bad(s, {"kind": kind, "codes": list(codes), "msg": msg, "extra": extra})
